@@ -37,11 +37,13 @@ class HarnessError(Exception):
     pass
 
 
-class TaskTimeout(Exception):
+class TaskTimeout(BaseException):
+    """not an Exception: the path explorer records Exceptions raised by the analysed code as path results and would swallow it"""
     pass
 
 
 def _alarm(signum, frame):
+    signal.alarm(5)            # fire again should something on the way out catch it
     raise TaskTimeout()
 
 
@@ -383,6 +385,7 @@ def _run_task(args):
     try:
         fn(p, cfg, rec)
     except TaskTimeout:
+        signal.alarm(0)
         p.res['inconclusive'].append([cfg_name, '*', 'task wall-clock limit (%ds)' % limit])
     except Unsupported as e:
         p.res['inconclusive'].append([cfg_name, '*', 'unsupported: %s' % e])
